@@ -152,8 +152,28 @@ func (in *Inst) instr(instr ssa.Instruction, g *Term, b *ssa.BasicBlock) {
 		in.call(nil, t.Common(), "defer", g, b)
 		in.lastEvent().Instr = t
 		in.lastEvent().Pos = t.Pos()
+		if in.Parent != nil {
+			// a defer of an inlined callee runs when THAT callee returns: remembered, replayed at its RunDefers
+			if ev := in.lastEvent(); ev.Kind == "defer" {
+				if len(in.loops) > len(in.Parent.loops) {
+					in.X.und("%s: inlined callee %s defers inside a loop", in.Parent.Fn, in.Fn)
+				}
+				in.deferEvs = append(in.deferEvs, ev)
+			}
+		}
 	case *ssa.RunDefers:
-		in.emit(&Event{Kind: "rundefers", Guard: g, Instr: t})
+		if in.Parent != nil {
+			for i := len(in.deferEvs) - 1; i >= 0; i-- {
+				d := in.deferEvs[i]
+				ce := *d
+				ce.Kind = "call"
+				ce.Guard = in.X.S.Canon(in.X.S.And(g, d.Guard))
+				ce.Res = nil
+				in.emit(&ce)
+			}
+		} else {
+			in.emit(&Event{Kind: "rundefers", Guard: g, Instr: t})
+		}
 	case *ssa.Send:
 		in.emit(&Event{Kind: "send", Guard: g, Instr: t, Args: []*Term{u(t.Chan), u(t.X)}})
 	case *ssa.MapUpdate:
@@ -298,6 +318,18 @@ func (in *Inst) load(addr *Term, typ types.Type, g *Term, instr ssa.Instruction,
 	}
 	if root.K == KSym {
 		if al, ok := in.X.objAlias[root.Sym]; ok {
+			// the copied value as seen from here: if the copy was made inside a loop that this block is outside
+			// of, the loop's symbols in it take their final values
+			if at, ok2 := in.X.objAliasAt[root.Sym]; ok2 && at.in == in && at.b != nil && b != nil {
+				for l := in.cfg.Inner[at.b]; l != nil; l = l.Parent {
+					if l.Blocks[b] {
+						break
+					}
+					if ls := in.loopSOf(l); ls != nil {
+						al = in.finalSubst(al, ls)
+					}
+				}
+			}
 			base := al.Args
 			if al.K == KSym {
 				base = []*Term{al} // the copied value is a by-value parameter itself
@@ -409,6 +441,7 @@ func (in *Inst) store(t *ssa.Store, g *Term, b *ssa.BasicBlock) {
 	if al, isAl := t.Addr.(*ssa.Alloc); isAl && (val.Op == "at" || (valIsParam && val.K == KSym && val.Sym.Kind == SParam)) && (singleInitStruct(al) || singleInitArrayParam(al, t)) && root.K == KSym {
 		// a local struct initialised once by copying a whole value: reads of its fields read the source location
 		in.X.objAlias[root.Sym] = val
+		in.X.objAliasAt[root.Sym] = aliasSite{in, b}
 	}
 	in.emit(&Event{Kind: "store", Guard: g, Instr: t, Root: root, Path: path, Val: val})
 }
@@ -563,6 +596,15 @@ func (in *Inst) call(v ssa.Value, c *ssa.CallCommon, kind string, g *Term, b *ss
 	}
 	sy.Ev = ev
 	r := S.SymTerm(sy)
+	// an in-module callee whose every return hands back one of its own parameters (FFT.Transform returns x): the
+	// result IS that argument
+	if kind == "call" && static != nil && inModule(static) && v != nil {
+		if _, isTuple := v.Type().(*types.Tuple); !isTuple {
+			if k := returnsParamIndex(static); k >= 0 && k < len(args) && !c.IsInvoke() {
+				return args[k]
+			}
+		}
+	}
 	if v != nil {
 		if tt, ok := v.Type().(*types.Tuple); ok {
 			var parts []*Term
@@ -610,14 +652,15 @@ func (in *Inst) inline(fn *ssa.Function, args []*Term, clo *closureVal, g *Term,
 	}
 	sub.region = in.region
 	sub.loops = in.loops
-	for _, b := range fn.Blocks {
-		for _, i := range b.Instrs {
-			if _, ok := i.(*ssa.Defer); ok {
-				in.X.und("%s: inlined callee %s uses defer", in.Fn, fn)
-			}
+	tex := sub.walkRegion(nil, nil, g)
+	for _, d := range sub.deferEvs {
+		d.Dead = true // replayed as calls at the callee's returns
+	}
+	for _, te := range tex {
+		if te.Ev != nil && te.Ev.Kind == "panic" && len(sub.deferEvs) > 0 {
+			in.X.und("%s: inlined callee %s defers and can panic (deferred calls on the panic path are not modelled)", in.Fn, fn)
 		}
 	}
-	tex := sub.walkRegion(nil, nil, g)
 	var cases []muxCase
 	nres := fn.Signature.Results().Len()
 	for _, te := range tex {
@@ -894,4 +937,101 @@ func (in *Inst) expandCopy(c *ssa.CallCommon, args []*Term, g *Term, b *ssa.Basi
 	in.region = in.region[:len(in.region)-1]
 	in.loops = in.loops[:len(in.loops)-1]
 	return ls.Trip
+}
+
+var retParamMemo = map[*ssa.Function]int{}
+
+// returnsParamIndex: the index k such that every return of fn returns its k-th parameter unchanged (receiver
+// included, as in the SSA call's argument list), or -1.
+func returnsParamIndex(fn *ssa.Function) int {
+	if k, ok := retParamMemo[fn]; ok {
+		return k
+	}
+	k := -1
+	ok := fn.Blocks != nil && fn.Signature.Results().Len() == 1
+	for _, b := range fn.Blocks {
+		for _, in := range b.Instrs {
+			r, isRet := in.(*ssa.Return)
+			if !isRet || !ok {
+				continue
+			}
+			p, isParam := r.Results[0].(*ssa.Parameter)
+			if !isParam {
+				// a parameter spilled because a closure captures it, never reassigned
+				p = spilledParam(r.Results[0])
+				isParam = p != nil
+			}
+			if !isParam {
+				ok = false
+				continue
+			}
+			idx := -1
+			for i, q := range fn.Params {
+				if q == p {
+					idx = i
+				}
+			}
+			if idx < 0 || (k >= 0 && k != idx) {
+				ok = false
+				continue
+			}
+			k = idx
+		}
+	}
+	if !ok {
+		k = -1
+	}
+	retParamMemo[fn] = k
+	return k
+}
+
+// spilledParam: v is a load of a local cell whose only store is the entry store of a parameter (no reassignment,
+// neither here nor through the closures that capture the cell).
+func spilledParam(v ssa.Value) *ssa.Parameter {
+	u, ok := v.(*ssa.UnOp)
+	if !ok {
+		return nil
+	}
+	a, ok := u.X.(*ssa.Alloc)
+	if !ok || a.Referrers() == nil {
+		return nil
+	}
+	var p *ssa.Parameter
+	for _, r := range *a.Referrers() {
+		switch r := r.(type) {
+		case *ssa.Store:
+			if r.Addr != ssa.Value(a) {
+				return nil
+			}
+			q, isP := r.Val.(*ssa.Parameter)
+			if !isP || p != nil {
+				return nil
+			}
+			p = q
+		case *ssa.UnOp, *ssa.DebugRef:
+		case *ssa.MakeClosure:
+			fn, isFn := r.Fn.(*ssa.Function)
+			if !isFn {
+				return nil
+			}
+			for bi, bnd := range r.Bindings {
+				if bnd != ssa.Value(a) || bi >= len(fn.FreeVars) {
+					continue
+				}
+				if fr := fn.FreeVars[bi].Referrers(); fr != nil {
+					for _, x := range *fr {
+						if st, isSt := x.(*ssa.Store); isSt && st.Addr == ssa.Value(fn.FreeVars[bi]) {
+							return nil
+						}
+						if _, isMC := x.(*ssa.MakeClosure); isMC {
+							return nil
+						}
+					}
+				}
+			}
+		default:
+			return nil
+		}
+	}
+	return p
 }
